@@ -3,6 +3,20 @@ PENDING_REASON = ('check not built yet in this snapshot of /verif (the property 
                   'exhaustive exploration, see DESIGN.md §3); not claimed until its check is registered')
 
 META = {
+    'C01': {
+        'engine': 'E1', 'level': 'model_checking',
+        'technique': 'stateless exhaustive exploration of all open/next interleavings of 2 iterators (and '
+                     'deviation-bounded interleavings of 3) over every catalogue view on the real objects, '
+                     'with a fresh-pass oracle in every node',
+        'text': 'For each of ~240 view call forms (all transforms, util views, extractors, every caching '
+                'configuration) every interleaving of open/next on two iterators over 2-3-row sources is '
+                'executed on the live petl view from a cold start, after a full pass and after an abandoned '
+                'pass; three iterators with <=2 mid-pass switches (all interleavings on 1-row sources in '
+                'thorough). Every item is compared with a solo pass over a freshly built identical view and a '
+                'fresh complete pass is run in every node (= every abandonment point).',
+        'note': 'bounded to <=3 iterators and <=4-row sources; the catalogue call forms stand for the view '
+                'classes; tee* excluded by the statement; packages not installed (intervaltree, numpy ...) excluded',
+    },
     'C04': {
         'engine': 'E2', 'level': 'model_checking',
         'technique': 'exhaustive enumeration of all pairs and triples over a 36-value mixed-type alphabet '
